@@ -455,13 +455,17 @@ func Serve(opts Options) error {
 
 	s.qdb = qdb
 	s.qidx = qidx
+	if opts.AppendOnly {
+		// before migrateAOF: a missing appendonly.aof must not be taken for a
+		// data directory that still needs the legacy "aof" file migrated
+		if err := restoreShrinkBackup(opts.AppendFileName); err != nil {
+			return err
+		}
+	}
 	if err := s.migrateAOF(); err != nil {
 		return err
 	}
 	if opts.AppendOnly {
-		if err := restoreShrinkBackup(opts.AppendFileName); err != nil {
-			return err
-		}
 		f, err := os.OpenFile(opts.AppendFileName, os.O_CREATE|os.O_RDWR, 0600)
 		if err != nil {
 			return err
